@@ -1,2 +1,31 @@
-Require Import Verif.Model.Base Verif.Model.Mode Verif.Corr.Enc.
-Definition ok (isprint : Z -> bool) (c : ecase) : bool := ok_mode ShColor isprint c.
+(* C06 correspondence: byte-exact comparison of the colour-mode encoder model with the
+   implementation (Enc.ok_mode), and - so that the SPECIFICATION side of the theorems is
+   exercised on every observed record - the hypotheses of C06_hygiene / C06_layout are
+   evaluated on the record and, where they hold, their conclusions are evaluated on the
+   OBSERVED bytes: hygienic observed, strip_sgr observed = layout_of ... *)
+Require Import Verif.Model.Base Verif.Model.Mode Verif.Model.Level Verif.Model.Attrs Verif.Model.Encode Verif.Model.Ansi.
+Require Import Verif.Corr.Enc.
+
+(* the hypotheses of the C06 theorems that speak about the configuration and the attributes *)
+Definition hyp_cfg (g : registry) (c : ecfg) (attrs : list attr) : bool :=
+  colors_ok g && text_ok (e_ts c) && text_ok (e_name c) && caller_texts_ok (e_caller c)
+  && text_ok (tag_of g (e_tagw c) (e_lvl c)) && attrs_ok attrs.
+
+Definition blank_always (c : ecfg) (msg : bytes) : bool := (e_lvl c =? lv_always) && all_blank msg.
+
+Definition ok (isprint : Z -> bool) (c : ecase) : bool :=
+  ok_mode ShColor isprint c &&
+  match encode isprint enc_registry (cfg_of c) (k_msg c) (k_attrs c) with
+  | None => true      (* markup in the first line: HTML translator, not modelled; direct oracle only *)
+  | Some _ =>
+      let h := hyp_cfg enc_registry (cfg_of c) (k_attrs c) in
+      implb (h && esc_free (k_msg c)) (hygienic_b (k_observed c))
+      && implb (h && layout_domain (k_msg c) && negb (blank_always (cfg_of c) (k_msg c)))
+               (bytes_eqb (strip_sgr (k_observed c)) (layout_of isprint enc_registry (cfg_of c) (k_msg c) (k_attrs c)))
+  end.
+
+(* how many records of a run meet the hypotheses (reported by the harness as coverage) *)
+Definition in_hygiene_domain (c : ecase) : bool :=
+  hyp_cfg enc_registry (cfg_of c) (k_attrs c) && esc_free (k_msg c).
+Definition in_layout_domain (c : ecase) : bool :=
+  hyp_cfg enc_registry (cfg_of c) (k_attrs c) && layout_domain (k_msg c) && negb (blank_always (cfg_of c) (k_msg c)).
